@@ -136,7 +136,7 @@ def run_mir_opt(res, tier, sc, drv, only_prog=None, only_fn=None):
             # enter calls on both sides up to the depth bound
             mode = "enter" if c[3] == "1" else "events"
             jobs.append((name, os.path.join(od, "mir_unopt.json"), os.path.join(od, "mir_opt_%s.json" % c), mode, bounds, only_fn))
-            if name != "repo-tests" and (c == "11111" or tier != "quick"):
+            if name != "repo-tests" and (c in ("11111", "00000") or tier != "quick"):
                 jobs.append((name, os.path.join(od, "mir_unopt.json"), os.path.join(od, "mir_opt_%s.json" % c), mode + "+divtraps", bounds, only_fn))
     # programs behind listed known findings: every difference found in them is attributed to that finding
     from vlib.common import load_known as _lk
@@ -156,7 +156,8 @@ def run_mir_opt(res, tier, sc, drv, only_prog=None, only_fn=None):
              "bound_ref_paths": 0, "bound_new_paths": 0, "fully_covered_functions": 0}
     skipped_why = {}
     from vlib.common import load_known
-    f29 = [k for k in load_known("C02") if k.get("ref_outcome") == "integer division trap"]
+    # known findings of the division-trap pass are keyed by the function in which the unoptimized run traps
+    f29 = [k for k in load_known("C02") if k.get("division_trap_functions")]
     f29_sites = []
     t0 = time.time()
     with concurrent.futures.ProcessPoolExecutor(max_workers=min(14, max(1, len(jobs)))) as ex:
@@ -171,8 +172,9 @@ def run_mir_opt(res, tier, sc, drv, only_prog=None, only_fn=None):
                     stats["division_trap_pass_functions"] = stats.get("division_trap_pass_functions", 0) + 1
                     if r["status"] == "different" and r.get("ref_outcome") == "trap" and "division" in (r.get("ref_why") or ""):
                         # the unoptimized run traps on a division; the optimized run behaves differently before / instead
-                        if f29:
-                            f29_sites.append("%s/%s" % (prog, r["fn"].split("$")[-1]))
+                        kn_ = [k for k in f29 if r["fn"].split("$")[-1] in k["division_trap_functions"]]
+                        if kn_:
+                            f29_sites.append((kn_[0]["id"], kn_[0]["short"], "%s/%s" % (prog, r["fn"].split("$")[-1])))
                             continue
                         res.violation("%s: function %s: the unoptimized run traps on a division, the run after %s %s"
                                       % (prog, r["fn"], fb, "does not trap (%s)" % r.get("new_outcome") if r.get("new_outcome") != "trap" else "traps after a different sequence of calls"),
@@ -203,9 +205,11 @@ def run_mir_opt(res, tier, sc, drv, only_prog=None, only_fn=None):
         k_ = [x for x in known_progs.values() if x["id"] == kid][0]
         res.known("%s %s (differs in: %s)" % (kid, k_["short"], ", ".join(sorted(fns_))))
     stats["known_finding_programs"] = {k: sorted(v) for k, v in known_hits.items()}
+    for kid in sorted(set(x[0] for x in f29_sites)):
+        sites = sorted(set(x[2] for x in f29_sites if x[0] == kid))
+        res.known("%s %s (%s)" % (kid, [x[1] for x in f29_sites if x[0] == kid][0], ", ".join(sites[:4])))
     if f29_sites:
-        res.known("%s %s (%d sites in the corpus, e.g. %s)" % (f29[0]["id"], f29[0]["short"], len(set(f29_sites)), ", ".join(sorted(set(f29_sites))[:4])))
-        stats["division_trap_known_sites"] = sorted(set(f29_sites))
+        stats["division_trap_known_sites"] = sorted(set(x[2] for x in f29_sites))
     stats["wall_s"] = round(time.time() - t0, 1)
     stats["skipped_reasons"] = skipped_why
     return {"programs": len(programs), "corpus": programs, "configurations": cfgs, "et": stats, "bounds": bounds}
@@ -352,7 +356,7 @@ def run_module_validity(res, tier, sc, drv):
             st_ = "driver-error"
         checked.append({"program": rel, "status": st_, "known_finding": k.get("id")})
         if st_ == "panic":
-            res.known("%s the compiler panics on the accepted program %s (Map.union of std/map.sam)" % (k.get("id"), rel))
+            res.known("%s %s" % (k.get("id"), k.get("short") or ("the compiler panics on the accepted program %s (Map.union of std/map.sam)" % rel)))
     return {"modules_validated": checked}
 
 
